@@ -85,12 +85,16 @@ type UDFCase struct {
 	Seq   []int  // indices into badMsgs, sent after the first data message arrives
 	Close bool   // the peer closes its side after the sequence (else it keeps reading and stays silent)
 	Deaf  bool   // the peer stops reading after the sequence
+	Late  int    // a well-behaved echoing peer that writes this many more responses after its input was closed (flush on EOF)
 }
 
 func (c UDFCase) String() string {
 	var s []string
 	for _, i := range c.Seq {
 		s = append(s, badMsgs[i].Name)
+	}
+	if c.Late > 0 {
+		return fmt.Sprintf("%s UDF echoes every point and writes %d more responses after its input was closed", c.Mode, c.Late)
 	}
 	end := "then stays silent"
 	if c.Close {
@@ -114,17 +118,30 @@ func serveBad(c UDFCase) func(in io.ReadCloser, out io.WriteCloser) {
 		for {
 			req := &agent.Request{}
 			if err := agent.ReadMessage(&buf, br, req); err != nil {
+				for i := 0; i < c.Late; i++ {
+					out.Write(frame(&agent.Response{Message: &agent.Response_Point{Point: goodPoint}}))
+				}
 				out.Close()
 				return
 			}
 			switch m := req.Message.(type) {
 			case *agent.Request_Init:
 				agent.WriteMessage(&agent.Response{Message: &agent.Response_Init{Init: &agent.InitResponse{Success: true}}}, out)
+			case *agent.Request_Snapshot:
+				if !sent {
+					agent.WriteMessage(&agent.Response{Message: &agent.Response_Snapshot{Snapshot: &agent.SnapshotResponse{Snapshot: []byte{1}}}}, out)
+				}
 			case *agent.Request_Keepalive:
 				if !sent {
 					agent.WriteMessage(&agent.Response{Message: &agent.Response_Keepalive{Keepalive: &agent.KeepaliveResponse{Time: m.Keepalive.Time}}}, out)
 				}
 			case *agent.Request_Point, *agent.Request_Begin:
+				if c.Late > 0 {
+					if pm, ok := m.(*agent.Request_Point); ok && c.Mode == "stream" {
+						out.Write(frame(&agent.Response{Message: &agent.Response_Point{Point: pm.Point}}))
+					}
+					continue
+				}
 				if !sent {
 					sent = true
 					for _, i := range c.Seq {
@@ -329,6 +346,17 @@ func udfPart(t *testing.T, r *rep.R, mine func() bool, expired func() bool) {
 		}
 	}
 	for _, mode := range []string{"stream", "batch"} {
+		for _, late := range []int{1, 2, 3} {
+			if !mine() {
+				continue
+			}
+			c := UDFCase{Mode: mode, Late: late}
+			rep.Current(Case{Kind: "udf", UDF: &c})
+			r.Add("states", 1)
+			for _, p := range runUDF(t, c, r) {
+				r.Violation(p.key, p.msg, Case{Kind: "udf", UDF: &c})
+			}
+		}
 		for _, s := range seqs {
 			for _, v := range []struct{ cl, deaf bool }{{false, false}, {true, false}, {false, true}} {
 				if v.deaf && len(s) > 1 {
